@@ -80,6 +80,10 @@ Definition uid_before (w : world) (r : request) (i : iobs) : option bytes :=
   end.
 
 (* ---- C01: which credential of U a request proves -------------------------------- *)
+(* one-time values that already completed (or parked) a login of U, remember cookies that already logged U in *)
+Definition spent (g : ghost) (U x : bytes) : bool :=
+  existsb (fun p => beqb (fst p) U && beqb (snd p) x) (g_used g).
+
 Definition cred_proven (g : ghost) (w : world) (r : request) (O : oracle) (i : iobs) (U : bytes) : bool :=
   let vals := values_of r in
   let sess := sess_of w (q_browser r) in
@@ -89,10 +93,11 @@ Definition cred_proven (g : ghost) (w : world) (r : request) (O : oracle) (i : i
       match user_of w U with Some u => pwcheck XC (u_password u) (aget f_password vals) | None => false end
   | ROtpLogin, POST =>
       beqb (aget pidf vals) U &&
-      match user_of w U with Some u => otp_valid u (aget f_password vals) | None => false end
+      match user_of w U with Some u => otp_valid u (aget f_password vals) | None => false end &&
+      negb (spent g U (aget f_password vals))               (* an UNCONSUMED one-time password *)
   | RApp _ _ _ _ _ true _, _ =>
       match alookup k_rm (cook_of w (q_browser r)) with
-      | Some c => cookie_valid_for w c U
+      | Some c => cookie_valid_for w c U && negb (spent g U c)   (* an UNCONSUMED remember token *)
       | None => false
       end
   | RRecoverEnd, POST =>
@@ -153,9 +158,6 @@ Definition pred_c01 (g : ghost) (w : world) (a : action) (O : oracle) (w' : worl
 (* ---- C02: second factor ----------------------------------------------------------- *)
 Definition sms_sent_to (g : ghost) (number code : bytes) : bool :=
   existsb (fun s => beqb (sm_to s) number && beqb (sm_text s) code) (g_smss g).
-
-Definition spent (g : ghost) (U x : bytes) : bool :=
-  existsb (fun p => beqb (fst p) U && beqb (snd p) x) (g_used g).
 
 Definition pred_c02 (g : ghost) (w : world) (a : action) (O : oracle) (w' : world) (i : iobs) : list Z :=
   match a with
@@ -348,6 +350,9 @@ Definition pred_c06 (g : ghost) (w : world) (a : action) (O : oracle) (w' : worl
       if io_err i then [] else
       match iuser_of i pid with
       | Some u' => (if beqb (u_password u') (px pw) then [] else [106]) ++
+                   (* bcrypt reads 72 bytes: a longer password that is reported as set is verified by everything
+                      sharing its first 72 bytes - the stored hash does not verify ONLY the new password *)
+                   (if (length pw <=? 72)%nat then [] else [1068]) ++
                    (match rm_of_i i pid with [] => [] | _ => [1061] end) ++
                    (if others_unchanged w i (Some pid) [151] && rm_others_unchanged w i pid then [] else [1062])
       | None => [106]
@@ -362,12 +367,24 @@ Definition pred_c06 (g : ghost) (w : world) (a : action) (O : oracle) (w' : worl
               match iuser_of i p with
               | Some u' =>
                   (if beqb (u_password u') (px (aget f_password (values_of r))) then [] else [1063]) ++
+                  (if (length (aget f_password (values_of r)) <=? 72)%nat then [] else [1068]) ++
                   (if bempty (u_rsel u') && bempty (u_rver u') then [] else [1064]) ++
                   (if has_mod cfg MRemember then match rm_of_i i p with [] => [] | _ => [1065] end else []) ++
                   (if others_unchanged w i (Some p) [151] && rm_others_unchanged w i p then [] else [1066])
               | None => [1063]
               end
             else []) (all_pids w i)
+      | RLogin =>
+          (* the old password is revoked: a password login that issues a session presented the password whose hash
+             the record holds NOW (whatever the record held before the last change) *)
+          match uid_before w r i, uid_in (io_sess i) with
+          | None, Some U =>
+              match user_of w U with
+              | Some u => if beqb (u_password u) (px (aget f_password (values_of r))) then [] else [1067]
+              | None => [1067]
+              end
+          | _, _ => []
+          end
       | _ => []
       end
   | _ => []
@@ -447,6 +464,16 @@ Definition pred_c07 (g : ghost) (w : world) (a : action) (O : oracle) (w' : worl
                | Some _, None => [1079]
                | None, _ => []
                end
+      | ROAuthStart _ =>
+          (* "remember me" travels through the OAuth2 round trip in the session: what a start request leaves there
+             is what THIS request asked for - not what an abandoned earlier attempt did *)
+          match alookup k_oauth_params (io_sess i) with
+          | Some p => if beqb (aget k_rm (decode_params p)) v_true && negb (beqb (aget k_rm (q_query r)) v_true)
+                         && ahas k_oauth_state (io_sess i)
+                         && negb (obytes_eq (alookup k_oauth_state (sess_of w b)) (alookup k_oauth_state (io_sess i)))
+                      then [10791] else []
+          | None => []
+          end
       | _ => []
       end
       end
